@@ -138,11 +138,17 @@ theorem mget_dense_dotProblem (p : Problem K) (Ad : DMat K) (bd : Array K) (reg 
   rw [this]
   exact rowDense_full p.n (fun j => mget Ad i j) j hj
 
-/-- sparse rows whose column indices are distinct and inside `1..n` (what `SparseMatrix` holds for
-    a design matrix; `AdjInputData` does not check it) -/
+/-- sparse rows whose column indices are inside `1..n` (`AdjInputData` does not check it).  Round 11: NO no-repeat
+    condition any more — several coefficients stored with the same column index add up in every consumer
+    (`Problem.dense`), so a row of an observation from a point to itself is covered -/
 def RowsOK (p : Problem K) : Prop :=
-  ∀ i, i < p.m → ((p.rows.getD i #[]).toList.map (·.1)).Nodup ∧
-    ∀ cv ∈ (p.rows.getD i #[]).toList, 1 ≤ cv.1 ∧ cv.1 ≤ p.n
+  ∀ i, i < p.m → ∀ cv ∈ (p.rows.getD i #[]).toList, 1 ≤ cv.1 ∧ cv.1 ≤ p.n
+
+/-- the former, stronger form (distinct column indices in every row) -/
+theorem RowsOK.of_nodup {p : Problem K}
+    (h : ∀ i, i < p.m → ((p.rows.getD i #[]).toList.map (·.1)).Nodup ∧
+      ∀ cv ∈ (p.rows.getD i #[]).toList, 1 ≤ cv.1 ∧ cv.1 ≤ p.n) : RowsOK p :=
+  fun i hi => (h i hi).2
 
 /-- `Adj`'s residuals with the original sparse rows are `A x - b` -/
 theorem origResiduals_spec (p : Problem K) (hrows : RowsOK p) (x : Array K) (i : Nat) (hi : i < p.m) :
@@ -150,9 +156,9 @@ theorem origResiduals_spec (p : Problem K) (hrows : RowsOK p) (x : Array K) (i :
   unfold origResiduals
   rw [vget_vmk, if_pos hi]
   congr 1
-  obtain ⟨hnd, hr⟩ := hrows i hi
+  have hr := hrows i hi
   rw [← Array.foldl_toList]
-  rw [← rowDense_dot p.n (p.rows.getD i #[]).toList (fun j => vget x j) hnd hr]
+  rw [← rowDense_dot' p.n (p.rows.getD i #[]).toList (fun j => vget x j) hr]
   exact Finset.sum_congr rfl fun j _ => by rw [mget_dense]
 
 end
